@@ -20,7 +20,8 @@ import socket
 import struct
 from typing import Dict, List, Tuple
 
-TEMPLATE_PATH = "/repo/hippolyzer/lib/base/message/data/message_template.msg"
+REPO_ROOT = os.path.abspath(os.environ.get("HMC_REPO", "/repo"))
+TEMPLATE_PATH = os.path.join(REPO_ROOT, "hippolyzer/lib/base/message/data/message_template.msg")
 
 FIXED_FMT = {
     "U8": "<B", "U16": "<H", "U32": "<I", "U64": "<Q", "S8": "<b", "S16": "<h", "S32": "<i", "S64": "<q",
